@@ -54,6 +54,9 @@ func SymCfg(c *core.Ctx) Cfg {
 	r := c.R
 	cfg := GenCfg(r, false, false)
 	cfg.CastInt, cfg.CastNanInf, cfg.SkipFunc = false, false, false
+	if cfg.Lower && strings.ToLower(cfg.AttrPrefix) != cfg.AttrPrefix {
+		cfg.AttrPrefix = "-" // lower-casing folds the prefix too: the encoder would not recognise the keys (not a symmetric combination)
+	}
 	if cfg.Cast {
 		cfg.CastFloat, cfg.CastBool = r.Intn(4) != 0, r.Intn(4) != 0
 	}
